@@ -186,4 +186,38 @@ CLAIMS = {
                 "the evidence), never counted as proved. Assumed: registered line numbers lie inside the module source; line "
                 "ids map injectively to line numbers; the HTML/XML renderers are not covered.",
     },
+    "C23": {
+        "category": "proof",
+        "text": "Unbounded proof over mathematical ints and IEEE-754 doubles (z3 FP theory) of the scalar renderers and parsers of "
+                "literalgen on the real code: _int_to_cst yields an Integer / -Integer node with a decimal token whose value is "
+                "the int, _parse_int inverts it (lemma: parse(render(n)) == n for every int); _float_to_cst yields a literal "
+                "whose evaluation is the very same double incl. the sign of zero, +-inf and NaN (float('inf')/float('nan') call "
+                "form, valid tokens), _parse_float returns that double or None and never a different value (lemma: "
+                "parse(render(x)) is x for every finite double); _complex_to_cst/_parse_component/_parse_complex do the same "
+                "componentwise; _mutate_bool flips True/False.",
+        "note": "assumed (A-STRNUM): str(int)/int(str) inverse on decimal digit tokens, float(repr(x)) is x for finite x, repr of "
+                "a finite double contains '.' or 'e' and a leading '-' exactly for negative-signed values, repr(str) is a literal "
+                "token evaluating to the string; libcst nodes are modelled as field records and libcst's token validation is "
+                "assumed to accept decimal/float tokens. Strings, bytes, collections (literal_to_cst/_collection_to_cst/"
+                "parse_literal via ast.literal_eval) and generate_literal/mutate_literal (random draws) are covered only by the "
+                "bounded stand-in (fixed value list incl. nasty strings and nested containers; seeded draws), never counted as "
+                "proved.",
+    },
+    "C29": {
+        "category": "other",
+        "text": "Bounded stand-in for the statement itself (not a proof): the real FilesystemIsolation is run around every history "
+                "of one and two file operations (thorough: plus 30000 seeded histories of three) over 52 operations - open/"
+                "Path.open/os.open in r/w/a/r+ modes, mkdir/makedirs/Path.mkdir with exist_ok, touch, write_text/bytes, rename/"
+                "replace onto new and pre-existing targets, copyfile/copy/copy2/copytree/move, remove/unlink/rmdir/rmtree, failing "
+                "calls whose exception the caller swallows - on a sandbox holding a pre-existing file, non-empty directory and "
+                "empty directory; the tree is compared byte for byte before and after. In addition the bookkeeping helpers are "
+                "proved (unbounded, z3): _record_created adds exactly the normalised non-None paths, _forget removes exactly "
+                "them, _get_arg returns the positional argument or a keyword value, _is_write_mode is the w/a/x/+ test.",
+        "technique": "bounded contract check, exhaustive over histories of length <= 2 (the tracked wrappers are closures over "
+                     "*args/**kwargs installed by unittest.mock.patch around os/shutil/pathlib calls: outside the verifier's "
+                     "subset) + deductive proof of the bookkeeping helpers",
+        "note": "the helper proofs do not by themselves imply the statement; operations outside the patch table (os.symlink, "
+                "os.truncate, os.link, file descriptors, subprocesses) are not isolated by design and not in the scope; symlinks "
+                "and concurrent modification are not explored.",
+    },
 }
